@@ -37,6 +37,74 @@ pub fn max_values(n: usize) -> Vec<u32> {
     }
 }
 
+/// The oracle on a registered queue: alignment, disjointness, platform-provided memory with the
+/// right direction, zeroed rings, and the fixed legacy layout.
+pub fn check_registered(n: usize, legacy: bool, ap: bool, desc: u64, driver: u64, device: u64, v: &mut Vec<(String, String)>) {
+    let (dl, al, ul) = (16 * n as u64, 6 + 2 * n as u64, 6 + 8 * n as u64);
+    if desc % 16 != 0 {
+        v.push(("align-desc".into(), format!("descriptor area {:#x} not 16-aligned", desc)));
+    }
+    if driver % 2 != 0 {
+        v.push(("align-driver".into(), format!("driver area {:#x} not 2-aligned", driver)));
+    }
+    if device % 4 != 0 {
+        v.push(("align-device".into(), format!("device area {:#x} not 4-aligned", device)));
+    }
+    let ext = [(desc, dl, "descriptor"), (driver, al, "driver"), (device, ul, "device")];
+    for i in 0..3 {
+        for j in i + 1..3 {
+            let (a, la, na) = ext[i];
+            let (b, lb, nb) = ext[j];
+            if a < b + lb && b < a + la {
+                v.push(("overlap".into(), format!("{} area {:#x}+{} overlaps {} area {:#x}+{}", na, a, la, nb, b, lb)));
+            }
+        }
+    }
+    hal::with(|h| {
+        for (a, l, name) in ext {
+            match h.dma_containing(a, l as usize) {
+                None => v.push(("outside-dma".into(), format!("{} area {:#x}+{} is not wholly inside one live DMA allocation (N={})", name, a, l, n))),
+                Some(e) => {
+                    let ok = if name == "device" { e.dir != Dir::ToDevice } else { e.dir != Dir::FromDevice };
+                    if !ok {
+                        v.push(("dma-direction".into(), format!("{} area lies in DMA memory allocated with direction {:?}", name, e.dir)));
+                    }
+                    if e.ap != ap {
+                        v.push(("dma-ap".into(), format!("{} area allocated with access_platform={} but queue created with {}", name, e.ap, ap)));
+                    }
+                }
+            }
+        }
+        if let Some(b) = h.peek(driver, al as usize) {
+            if b.iter().any(|x| *x != 0) {
+                v.push(("avail-not-zero".into(), "available ring not zeroed at registration".into()));
+            }
+        }
+        if let Some(b) = h.peek(device, ul as usize) {
+            if b.iter().any(|x| *x != 0) {
+                v.push(("used-not-zero".into(), "used ring not zeroed at registration".into()));
+            }
+        }
+        if legacy {
+            if desc % 4096 != 0 {
+                v.push(("legacy-page-align".into(), format!("legacy queue at {:#x} not page aligned", desc)));
+            }
+            if driver != desc + dl {
+                v.push(("legacy-avail".into(), format!("legacy available ring at {:#x}, expected directly after the table at {:#x}", driver, desc + dl)));
+            }
+            let want = (desc + dl + al + 4095) & !4095;
+            if device != want {
+                v.push(("legacy-used".into(), format!("legacy used ring at {:#x}, expected the next page boundary {:#x}", device, want)));
+            }
+            let e0 = h.dma_containing(desc, 1).map(|e| e.ordinal);
+            let e1 = h.dma_containing(device + ul - 1, 1).map(|e| e.ordinal);
+            if e0.is_none() || e0 != e1 {
+                v.push(("legacy-contiguous".into(), "legacy queue is not one contiguous DMA region".into()));
+            }
+        }
+    });
+}
+
 /// Runs one case; returns (outcome class, violations).
 pub fn run_case<const N: usize>(c: Case) -> (String, Vec<(String, String)>) {
     let mut v: Vec<(String, String)> = vec![];
@@ -105,69 +173,7 @@ pub fn run_case<const N: usize>(c: Case) -> (String, Vec<(String, String)>) {
                 if qi != 0 || size != N as u32 {
                     v.push(("queue_set-args".into(), format!("queue_set(queue {}, size {}) for queue 0 of size {}", qi, size, N)));
                 }
-                let (dl, al, ul) = (16 * N as u64, 6 + 2 * N as u64, 6 + 8 * N as u64);
-                if desc % 16 != 0 {
-                    v.push(("align-desc".into(), format!("descriptor area {:#x} not 16-aligned", desc)));
-                }
-                if driver % 2 != 0 {
-                    v.push(("align-driver".into(), format!("driver area {:#x} not 2-aligned", driver)));
-                }
-                if device % 4 != 0 {
-                    v.push(("align-device".into(), format!("device area {:#x} not 4-aligned", device)));
-                }
-                let ext = [(desc, dl, "descriptor"), (driver, al, "driver"), (device, ul, "device")];
-                for i in 0..3 {
-                    for j in i + 1..3 {
-                        let (a, la, na) = ext[i];
-                        let (b, lb, nb) = ext[j];
-                        if a < b + lb && b < a + la {
-                            v.push(("overlap".into(), format!("{} area {:#x}+{} overlaps {} area {:#x}+{}", na, a, la, nb, b, lb)));
-                        }
-                    }
-                }
-                hal::with(|h| {
-                    for (a, l, name) in ext {
-                        match h.dma_containing(a, l as usize) {
-                            None => v.push(("outside-dma".into(), format!("{} area {:#x}+{} is not wholly inside one live DMA allocation (N={})", name, a, l, N))),
-                            Some(e) => {
-                                let ok = if name == "device" { e.dir != Dir::ToDevice } else { e.dir != Dir::FromDevice };
-                                if !ok {
-                                    v.push(("dma-direction".into(), format!("{} area lies in DMA memory allocated with direction {:?}", name, e.dir)));
-                                }
-                                if e.ap != c.ap {
-                                    v.push(("dma-ap".into(), format!("{} area allocated with access_platform={} but queue created with {}", name, e.ap, c.ap)));
-                                }
-                            }
-                        }
-                    }
-                    if let Some(b) = h.peek(driver, al as usize) {
-                        if b.iter().any(|x| *x != 0) {
-                            v.push(("avail-not-zero".into(), "available ring not zeroed at registration".into()));
-                        }
-                    }
-                    if let Some(b) = h.peek(device, ul as usize) {
-                        if b.iter().any(|x| *x != 0) {
-                            v.push(("used-not-zero".into(), "used ring not zeroed at registration".into()));
-                        }
-                    }
-                    if c.legacy {
-                        if desc % 4096 != 0 {
-                            v.push(("legacy-page-align".into(), format!("legacy queue at {:#x} not page aligned", desc)));
-                        }
-                        if driver != desc + dl {
-                            v.push(("legacy-avail".into(), format!("legacy available ring at {:#x}, expected directly after the table at {:#x}", driver, desc + dl)));
-                        }
-                        let want = (desc + dl + al + 4095) & !4095;
-                        if device != want {
-                            v.push(("legacy-used".into(), format!("legacy used ring at {:#x}, expected the next page boundary {:#x}", device, want)));
-                        }
-                        let e0 = h.dma_containing(desc, 1).map(|e| e.ordinal);
-                        let e1 = h.dma_containing(device + ul - 1, 1).map(|e| e.ordinal);
-                        if e0.is_none() || e0 != e1 {
-                            v.push(("legacy-contiguous".into(), "legacy queue is not one contiguous DMA region".into()));
-                        }
-                    }
-                });
+                check_registered(N, c.legacy, c.ap, desc, driver, device, &mut v);
             }
             // Release.
             let live_before = hal::with(|h| h.live_dma_count());
@@ -190,4 +196,71 @@ pub fn run_case<const N: usize>(c: Case) -> (String, Vec<(String, String)>) {
     }
     drop(t);
     (outcome, v)
+}
+
+// ------------------------------------------------------------------------------------------------
+// Registration through the real transports.
+
+struct VReg<const N: usize> {
+    bits: u8,
+}
+
+impl<const N: usize> crate::drivers::TransportVisitor for VReg<N> {
+    type Out = Vec<(String, String)>;
+    fn visit<T: virtio_drivers::transport::Transport + 'static>(self, mut t: T, w: &crate::drivers::DWorld) -> Self::Out {
+        let mut v = vec![];
+        let legacy = w.tkind == crate::drivers::TKind::MmioLegacy;
+        let _ = t.begin_init(crate::c10::LabFeatures::all());
+        let (indirect, event_idx, ap) = (self.bits & 1 != 0, self.bits & 2 != 0, self.bits & 4 != 0);
+        match crate::util::catch(|| VirtQueue::<LabHal, N>::new(&mut t, 0, indirect, event_idx, ap)) {
+            Err(p) => v.push(("new-panicked".into(), p)),
+            Ok(Err(e)) => v.push(("spurious-refusal".into(), format!("VirtQueue::<_, {}>::new on {} failed with {:?}", N, w.tkind.name(), e))),
+            Ok(Ok(q)) => {
+                let (addrs, size) = {
+                    let d = w.dev.borrow();
+                    (d.queue_addrs(0), d.queue_addrs(0).map(|a| a.size).unwrap_or(0))
+                };
+                match addrs {
+                    None => v.push(("not-registered".into(), format!("queue 0 is not enabled in the device after VirtQueue::new on {}", w.tkind.name()))),
+                    Some(a) => {
+                        if size != N as u32 {
+                            v.push(("queue_set-args".into(), format!("device was told queue size {} for a queue of {}", size, N)));
+                        }
+                        check_registered(N, legacy, ap, a.desc, a.driver, a.device, &mut v);
+                    }
+                }
+                t.queue_unset(0);
+                drop(q);
+                let live = hal::with(|h| h.live_dma_count());
+                if live != self.bits as usize >> 4 {
+                    v.push(("dma-leak".into(), format!("{} DMA regions still allocated after the queue was dropped", live)));
+                }
+            }
+        }
+        v
+    }
+}
+
+/// Creates a queue of N entries on a real transport (register-level device behind it), after `pre`
+/// other DMA allocations (so that its regions start in different 4 GiB windows) and with the
+/// platform's DMA addresses moved by `skew` pages; the addresses the *device* ended up with are
+/// held against the same oracle as on the model transport.
+pub fn run_registration<const N: usize>(tkind: crate::drivers::TKind, pre: usize, skew: u32, bits: u8) -> Vec<(String, String)> {
+    hal::reset();
+    hal::with(|h| h.skew_dma(skew as u64));
+    let mut keep = vec![];
+    for _ in 0..pre {
+        keep.push(<LabHal as virtio_drivers::Hal>::dma_alloc(1, virtio_drivers::BufferDirection::Both, false));
+    }
+    let w = crate::drivers::DWorld::new(crate::drivers::Kind::Rng, tkind, crate::drivers::F_VERSION_1, vec![]);
+    let mut v = w.with_transport(VReg::<N> { bits: bits | ((pre as u8) << 4) });
+    for (k, d) in hal::with(|h| std::mem::take(&mut h.faults)) {
+        v.push((k, d));
+    }
+    for (p, va) in keep {
+        // SAFETY: allocated above with the same arguments.
+        unsafe { <LabHal as virtio_drivers::Hal>::dma_dealloc(p, va, 1, false) };
+    }
+    crate::mmio::set_handler(None);
+    v
 }
